@@ -268,7 +268,11 @@ harness(void)
 	V_ASSERT(ret == 0 || g_nerr > 0 || g_ndiag > 0, "C19: a failing status comes with a diagnostic");
 	if (ret == 0) V_REACH("status-0");
 	if (ret == 1) V_REACH("status-1");
+#ifndef TOOL_sort
 	if (ret == 0 && g_nstep > 0 && IN.step[0] == 0) V_REACH("event-processed");
+#else
+	if (ret == 0 && operation_mode == CHECK) V_REACH("check-mode-status-0");
+#endif
 #if defined(TOOL_dump)
 	if (ret == 0 && hex_mode && IN.step[0] == 0 && g_ev.payload_size > 0) V_REACH("hex-dump-of-payload");
 #elif defined(TOOL_top)
